@@ -312,7 +312,11 @@ def reset_invariant(kind, n):
     zero counters.  Returns a list of (key, text)."""
     import yastn
     bad = []
-    for lab, ci in sorted(yastn.get_cache_info().items()):
+    try:
+        info = sorted(yastn.get_cache_info().items())
+    except Exception as e:  # noqa: BLE001   (the documented control functions must keep working after every resize / clear)
+        return [(f"c16:control:get_cache_info-raises", f"after {kind}({'' if n is None else n}) yastn.get_cache_info() raised {type(e).__name__}: {e}")]
+    for lab, ci in info:
         if ci.hits or ci.misses or ci.currsize:
             bad.append((f"c16:{kind}-not-applied:{lab}", f"after {kind}({'' if n is None else n}) get_cache_info()['{lab}'] = {tuple(ci)} is not empty with zero counters"))
         if kind == "set_cache_maxsize" and ci.maxsize != n:
@@ -323,7 +327,11 @@ def reset_invariant(kind, n):
         for w, binds in anchored_functions().values():
             if w.__name__ not in managed:
                 continue  # a memoised function _control_lru does not know about: reported as a note by run()
-            sizes = [getattr(m, k).cache_info().maxsize for m, k in binds]
+            try:
+                sizes = [getattr(m, k).cache_info().maxsize for m, k in binds]
+            except AttributeError as e:
+                bad.append((f"c16:{kind}-not-applied:{w.__name__}", f"after set_cache_maxsize({n}) a binding of {w.__module__}.{w.__name__} is no cache object any more: {e}"))
+                continue
             if n not in sizes:
                 bad.append((f"c16:{kind}-not-applied:{w.__name__}",
                             f"after set_cache_maxsize({n}) no binding of {w.__module__}.{w.__name__} has maxsize {n} (found {sizes})"))
@@ -528,7 +536,7 @@ def gen_template(rng, H, f, kind=None):
     nm = len(fam["members"])
     has_sib = f + 1 < len(H["fams"]) and H["fams"][f + 1].get("sib")
     kinds = ["tensordot", "tensordot", "add", "fuse", "fuse", "fused_dot", "fused_add", "svd", "qr", "mask", "broadcast",
-             "swap", "ncon", "vdot", "fused_svd", "drop_dot", "dense", "dense", "einsum", "einsum", "leg", "leg"]
+             "swap", "ncon", "vdot", "fused_svd", "drop_dot", "dense", "dense", "einsum", "einsum", "leg", "leg", "restored", "restored"]
     if fam["paired"]:
         kinds += ["trace", "trace", "ncon_trace", "fused_trace"]
     if fam.get("uniform"):
@@ -588,6 +596,8 @@ def gen_template(rng, H, f, kind=None):
         outs = list(range(2 * (d - k)))
         rng.shuffle(outs)
         t.update(legs=legs, outs=outs, swap=rng.choice((0, 0, 1, 2)), order=rng.choice((0, 0, 1, 2)))
+    elif kind == "restored":   # operations on a tensor restored from a dictionary whose metadata went through JSON (lists for tuples)
+        t.update(groups=_rand_groups(rng, d), level=rng.choice((0, 1, 2)), op=rng.choice(("fuse", "trace", "vdot", "add", "svd")))
     elif kind == "leg":        # construction of a Leg (and a tensor on it) from user-given charges, possibly outside the group's range
         n = rng.randint(1, 3)
         pool_t = list(itertools.product(range(-1, 5), repeat=fam["nsym"]))
@@ -804,6 +814,25 @@ def exec_template(pool, t, v):
             kw["order"] = low[:nc][1:] + low[:1]       # rotated; (for nc == 1 the same as the default)
         sub = "".join(sa) + ",*" + "".join(sb) + "->" + up[:o]
         return [yastn.einsum(sub, a, b, **kw)]
+    if kind == "restored":
+        src = a.fuse_legs(axes=_axes_groups(t["groups"]), mode="hard")
+        data, meta = yastn.split_data_and_meta(src.to_dict(level=t["level"]), squeeze=True)
+        meta = json.loads(json.dumps(meta)) if t["level"] >= 1 else meta      # level 0 keeps Python objects (not JSON-able)
+        r = yastn.Tensor.from_dict(yastn.combine_data_and_meta(data, meta), config=pool.config(v))
+        out = [r]
+        if t["op"] == "fuse":
+            out.append(r.unfuse_legs(axes=tuple(i for i, g in enumerate(t["groups"]) if len(g) > 1)))
+            if r.ndim >= 2:
+                out.append(r.fuse_legs(axes=((0, 1),) + tuple(range(2, r.ndim)), mode="hard"))
+        elif t["op"] == "vdot":
+            out.append(yastn.vdot(r, src))
+        elif t["op"] == "add":
+            out.append(r + src)
+        elif t["op"] == "svd" and r.ndim >= 2:
+            out.extend(r.svd(axes=((0,), tuple(range(1, r.ndim)))))
+        else:
+            out.append(yastn.tensordot(r, src, axes=(tuple(range(r.ndim)), tuple(range(r.ndim))), conj=(0, 1)))
+        return out
     if kind == "leg":
         cfg = pool.config(v)
         leg = yastn.Leg(cfg, s=t["s"], t=[tuple(x) for x in t["ts"]], D=tuple(t["Ds"]))
@@ -935,7 +964,10 @@ def gen_history(rng, resizing, quick):
 
 def do_resize(n):
     import yastn
-    yastn.set_cache_maxsize(n)
+    try:
+        yastn.set_cache_maxsize(n)
+    except Exception as e:  # noqa: BLE001   (caches "resized ... at arbitrary moments": the call itself must work)
+        return [("c16:control:set_cache_maxsize-raises", f"yastn.set_cache_maxsize({n}) raised {type(e).__name__}: {e}")]
     ST.split = True
     install()
     return reset_invariant("set_cache_maxsize", n)
@@ -943,7 +975,11 @@ def do_resize(n):
 
 def do_clear():
     import yastn
-    yastn.clear_cache()
+    try:
+        yastn.clear_cache()
+        yastn.get_cache_info()
+    except Exception as e:  # noqa: BLE001
+        return [("c16:control:clear_cache-raises", f"yastn.clear_cache() / get_cache_info() raised {type(e).__name__}: {e}")]
     return reset_invariant("clear_cache", None)
 
 
@@ -1308,7 +1344,10 @@ def run(ctx):
     ctx.extra["functions_with_hits"] = hitfuncs
     ctx.extra["functions_called"] = sorted(k[5:] for k in ST.stats if k.startswith("miss:"))
     # (A) model correspondence
-    part_a(ctx, random.Random(f"{base}-partA"), 500 if quick else 6000)
+    if any(f.concrete for f in ctx.findings):
+        ctx.notes.append("part (A) skipped: the histories already produced a failing input (the cache objects may be in a broken state)")
+    else:
+        part_a(ctx, random.Random(f"{base}-partA"), 500 if quick else 6000)
     install()
 
 
